@@ -298,6 +298,11 @@ class NetRunner:
                         disagreements.append({"case": name, "cfg": cfg, "model": {k: m.get(k) for k in ("status", "cls", "msg", "diff")}})
                 elif not m.get("fullEqual"):
                     stats["model-differs-outside-slice"] += 1
+                if m.get("status") == "ok":
+                    # hypotheses of the generator theorems (reverse-paired link edges, only links at routers)
+                    stats["graph-hypothesis-" + ("holds" if m.get("graphHyp") else "FAILS")] += 1
+                    if not m.get("graphHyp") and pid == "C05" and len(disagreements) < 3:
+                        disagreements.append({"case": name, "cfg": cfg, "model": {"hypothesis": "PairedGraph / OnlyLinksAt fails"}})
             hv = res.get("holds", {}).get(pid)
             if hv is not None and hv != (len(fs) == 0):
                 raise RuntimeError(f"decider and diagnostics disagree on {name}: holds={hv} findings={fs[:2]}")
